@@ -56,6 +56,11 @@ CONFIGS = {
                  [(0, ""), (1, "d"), (2, "a"), (1, "e")],
                  [thr("op", r=3), thr("clunk", r=3), thr("rename", r=2, old="a", tgt=4, new="b")],
                  ["GetAttr", "Close", "Renamed"]),
+    # a request without path locks (Tlock, blocked in the backend) holds the last reference while its fid is clunked
+    "inflight-lock": ([ref(0, "", 1), ref(1, "x", 2)],
+                      [(0, ""), (1, "x")],
+                      [thr("opn", r=2), thr("clunk", r=2), thr("op", r=2)],
+                      ["Lock", "Close", "GetAttr"]),
     # rename over an existing, held target while source and target entries go away
     "overwrite": ([ref(0, "", 1), ref(1, "x", 2), ref(1, "y", 3)],
                   [(0, ""), (1, "x"), (1, "y")],
